@@ -25,7 +25,7 @@ func genLoopCase(t *rapid.T, prop string) *Case {
 		durs = []int64{5}
 	}
 	fromInput := rapid.Bool().Draw(t, "items_from_input")
-	var items []any
+	items := []any{} // (never nil: an empty list must not become a null in the replay file)
 	var itemExprs []*ir.Expr
 	for i := 0; i < nItems; i++ {
 		mode := "ok"
